@@ -950,3 +950,153 @@ def flw21_catalogue_sees_every_key(ctx):
                       'every key of the batch (TableBuffer::columns through map only)' if from_cols and not sel
                       else 'a selection of the keys' if sel else 'something that is not derived from the batch keys',
                       (': ' + ', '.join(sorted(set(sel)))) if sel else ''), where(t))
+
+
+# ------------------------------------------------------------------------------------ ORD-16
+def ord16_partials_combined_in_partition_order(ctx):
+    ctx.rule('ORD-16', 'partial results of the partitions are put together in partition (ingestion) '
+                       'order, not in the order worker threads finish: they are kept in an ordered map '
+                       'keyed by the start of the scanned row range, only contiguous ranges are merged '
+                       '(left = lower range), and the merged result covers left.start..right.end',
+             floor=6)
+    ast = ctx.ast
+    f = 'engine/execution/query_task.rs'
+    # containers are ordered maps
+    st = ast.struct('QueryState', f)
+    pr = [fl for fl in st['fields'] if fl['name'] == 'partial_results']
+    ctx.check('ORD-16', 'QueryState.partial_results|ordered-map', bool(pr) and 'BTreeMap<usize' in pr[0]['ty'].replace(' ', ''),
+              'partial results of all threads are kept in a BTreeMap keyed by usize (type: %s)'
+              % (pr[0]['ty'] if pr else None), 'src/%s' % f)
+    # every insert into partial_results / batch_results is keyed by scanned_range.start of the value
+    # (or re-uses the key of the left operand of a merge)
+    n = 0
+    for qual in ('QueryTask::run', 'QueryTask::push_result', 'QueryTask::combine_results'):
+        fn = ast.fn(qual, f)
+        for m in find(fn, 'mcall'):
+            if m['method'] != 'insert' or len(m['args']) != 2:
+                continue
+            recv = json_text_(m['recv'])
+            if 'partial_results' not in recv and 'batch_results' not in recv:
+                continue
+            n += 1
+            k = m['args'][0]
+            ktxt = json_text_(k)
+            keyed = ('scanned_range' in ktxt and '"start"' in ktxt) or (k.get('k') == 'path' and qual.endswith('combine_results'))
+            ctx.check('ORD-16', '%s|insert-keyed-by-range-start%s' % (qual, '' if n == 1 else '#%d' % n), keyed,
+                      'partial result stored under the start of its scanned range', 'src/%s:%d' % (f, m['l']))
+    ctx.require(n >= 3, 'ORD-16: fewer than 3 inserts into the partial result maps (%d)' % n)
+    # eligible_pair: contiguity test prev.end == curr.start
+    cr = ast.fn('QueryTask::combine_results', f)
+    cont = False
+    for b in find(cr, 'binary'):
+        if b['op'] == '==':
+            l, r = json_text_(b['lhs']), json_text_(b['rhs'])
+            if 'scanned_range' in l and 'scanned_range' in r and \
+                    (('"end"' in l and '"start"' in r) or ('"start"' in l and '"end"' in r)):
+                cont = True
+    ctx.check('ORD-16', 'combine_results|only-contiguous-ranges-merge', cont,
+              'two partial results are merged only if one ends where the other starts', 'src/%s' % f)
+    # the pair is (lower key, higher key) and combine(left, right) gets them in that order; names are
+    # taken from the patterns, not assumed
+    order_ok = False
+    knames = None
+    for n_ in walk(cr['body']):
+        if isinstance(n_, dict) and n_.get('k') in ('while', 'while_let', 'loop') and 'eligible_pair' in json_text_(n_.get('cond') or n_.get('scrutinee') or n_.get('expr') or {}):
+            ids = [y.get('name') for y in walk(n_.get('pat') or n_.get('cond') or {}) if isinstance(y, dict) and y.get('k') == 'p_ident']
+            ids = [i for i in ids if i not in ('Some', 'None')]
+            if len(ids) >= 2:
+                knames = ids[:2]
+    if knames is None:
+        # fall back: first tuple pattern with two identifiers bound from an eligible_pair(..) call
+        for n_ in walk(cr['body']):
+            if isinstance(n_, dict) and n_.get('k') == 'p_tuple' and len(n_.get('elems', [])) == 2 and \
+                    all(e.get('k') == 'p_ident' for e in n_['elems']):
+                knames = [e['name'] for e in n_['elems']]
+    for c in find(cr, 'call'):
+        if last_seg((c.get('func') or {}).get('path', '') or '') == 'combine' and len(c.get('args', [])) >= 2 and knames:
+            a0, a1 = c['args'][0].get('path'), c['args'][1].get('path')
+            rem = {}
+            for n_ in walk(cr['body']):
+                if isinstance(n_, dict) and n_.get('k') == 'let' and (n_.get('pat') or {}).get('k') == 'p_ident':
+                    t_ = json_text_(n_.get('init') or {})
+                    if '"remove"' in t_:
+                        ids = idents_in(n_['init'])
+                        rem[n_['pat']['name']] = 0 if knames[0] in ids else (1 if knames[1] in ids else None)
+            order_ok = rem.get(a0) == 0 and rem.get(a1) == 1
+    # eligible_pair returns (key of prev, key of curr): prev comes first in map order
+    ep_ok = False
+    for (p_, q_, n_) in ast.fns:
+        if p_.endswith(f) and q_.endswith('eligible_pair') and n_.get('body'):
+            for c in find(n_, 'call'):
+                if last_seg((c.get('func') or {}).get('path', '') or '') == 'Some' and c.get('args') and \
+                        c['args'][0].get('k') == 'tuple' and len(c['args'][0]['elems']) == 2:
+                    t0, t1 = json_text_(c['args'][0]['elems'][0]), json_text_(c['args'][0]['elems'][1])
+                    ep_ok = 'prev' in t0 and 'prev' not in t1
+    ctx.check('ORD-16', 'combine_results|left-is-lower-range', order_ok and ep_ok,
+              'eligible_pair yields (earlier key, later key) and combine(left, right) receives the results '
+              'in that order', 'src/%s' % f)
+    # batch_merging::combine: merged range = left.start .. right.end in every result
+    comb = ast.fn('combine', 'engine/execution/batch_merging.rs')
+    pn = [x['name'] for x in comb.get('params', [])][:2]
+    ctx.require(len(pn) == 2, 'ORD-16: batch_merging::combine does not take two batches')
+    ranges = []
+    for sl in find(comb, 'struct_lit'):
+        for fl in sl.get('fields', []):
+            if fl['name'] == 'scanned_range':
+                ranges.append((fl['value'], sl['l']))
+
+    def lr(v):
+        # `a.scanned_range.start..b.scanned_range.end`
+        if v.get('k') != 'range':
+            return None
+        lo, hi = v.get('from') or v.get('start') or v.get('lo'), v.get('to') or v.get('end') or v.get('hi')
+        if not lo or not hi:
+            return None
+        return (pn[0] in idents_in(lo) and '"start"' in json_text_(lo) and
+                pn[1] in idents_in(hi) and '"end"' in json_text_(hi))
+    res = [lr(v) for v, _l in ranges]
+    if any(r is None for r in res):
+        # range node shape unknown: fall back to textual order of the two parameters
+        res = [json_text_(v).find('"%s' % pn[0]) != -1 and json_text_(v).find(pn[0]) < json_text_(v).find(pn[1])
+               and '"start"' in json_text_(v) and '"end"' in json_text_(v) for v, _l in ranges]
+    ctx.check('ORD-16', 'batch_merging::combine|merged-range-left-start-right-end',
+              bool(ranges) and all(res),
+              '%d merged results carry scanned_range <left>.start..<right>.end' % len(ranges),
+              'src/engine/execution/batch_merging.rs')
+    # rows of the right batch are appended after the rows of the left batch (select queries):
+    # `for (x, y) in <left>.columns..zip(<right>.columns)  ..  x.append_all(y)`
+    app = [m for m in find(comb, 'mcall') if m['method'] == 'append_all']
+    okapp = bool(app)
+    for m in app:
+        side = {}
+        for lp in [x for x in walk(comb['body']) if isinstance(x, dict) and x.get('k') == 'for']:
+            if not any(mm is m for mm in find(lp['body'], 'mcall')):
+                continue
+            it = json_text_(lp['iter'])
+            if '"zip"' in it and pn[0] in it and pn[1] in it and it.find(pn[0]) < it.find(pn[1]):
+                tp = [y for y in walk(lp['pat']) if isinstance(y, dict) and y.get('k') == 'p_tuple']
+                if tp and len(tp[0]['elems']) == 2:
+                    for pos, e in enumerate(tp[0]['elems']):
+                        for y in walk(e):
+                            if isinstance(y, dict) and y.get('k') == 'p_ident':
+                                side[y['name']] = 'LR'[pos]
+            for n_ in walk(lp['body']):
+                if isinstance(n_, dict) and n_.get('k') == 'let' and n_.get('init') is not None:
+                    names = [y['name'] for y in walk(n_['pat']) if isinstance(y, dict) and y.get('k') == 'p_ident']
+                    ids = idents_in(n_['init'])
+                    sd = {side.get(i) for i in ids if side.get(i)} | \
+                        ({'L'} if pn[0] in ids else set()) | ({'R'} if pn[1] in ids else set())
+                    if len(sd) == 1:
+                        for nm in names:
+                            side.setdefault(nm, list(sd)[0])
+        rs = {side.get(i) for i in idents_in(m['recv'])} - {None}
+        as_ = {side.get(i) for i in idents_in(m['args'][0])} - {None}
+        okapp = okapp and rs == {'L'} and as_ == {'R'}
+    ctx.check('ORD-16', 'batch_merging::combine|right-appended-to-left', okapp,
+              'select results: the right batch is appended to the left one (%d sites)' % len(app),
+              'src/engine/execution/batch_merging.rs')
+
+
+def json_text_(node):
+    import json as _json
+    return _json.dumps(node)
